@@ -180,8 +180,8 @@ def run_path(world, it, ref, contract):
                         if "unknown name" in str(e):
                             from .interp import _never_bound
                             if _never_bound(fnode, str(e)):
-                                it.oblige("EXIT", f"{clause} [{e}: the function no longer binds it]",
-                                          False, fnode.lineno)
+                                raise Unsupported(f"contract clause mentions a local the function no "
+                                                  f"longer binds ({e}): {clause}")
                             continue   # a local that is not bound on this return path
                         raise
                     it.oblige("EXIT", clause, g, fnode.lineno)
